@@ -77,6 +77,16 @@ func (c *Conn) Log() []Entry {
 	return append([]Entry(nil), c.log...)
 }
 
+// LogFrom returns a copy of the log entries from index i on.
+func (c *Conn) LogFrom(i int) []Entry {
+	c.mu.Lock()
+	defer c.mu.Unlock()
+	if i > len(c.log) {
+		i = len(c.log)
+	}
+	return append([]Entry(nil), c.log[i:]...)
+}
+
 // LogLen returns the current log length.
 func (c *Conn) LogLen() int {
 	c.mu.Lock()
